@@ -17,6 +17,9 @@ CLAIMED = {
  "C01": (LEVEL + "One inductive step from an arbitrary state satisfying the representation invariant plus bounded histories from the constructors; the oracle is a plain list.", COMMON_NOTE + "; inductive hypothesis Inv as stated in DESIGN §3.11"),
  "C03": (LEVEL + "Capacity field is a solver variable around the boundary; growth and shrinkage steps; Cap/Avail/IsFull arithmetic asserted after every step.", COMMON_NOTE),
  "C08": (LEVEL + "Every int argument is an unconstrained 64-bit variable (MinInt, -1, Len, MaxInt are found by the solver, not listed).", COMMON_NOTE),
+ "C13": (LEVEL + "No-nesting bit and all other option bits symbolic; every mix of offered value kinds (primitive, nil, Stack, three alias forms, Condition) by fork; reflective alias detection runs in the engine's reflect model and is confirmed natively.", COMMON_NOTE),
+ "C15": (LEVEL + "Destination capacity field is a solver variable spanning too-small to ample; source/destination lengths enumerated; all destination variants (Stack, alias, pointer, read-only, zero, foreign, nil).", COMMON_NOTE),
+ "C18": (LEVEL + "The option word (2^8 states) and the log-level mask (2^16) are solver variables, so a wrong mask constant or operator is found for whichever neighbouring bit it corrupts; strings and encapsulation characters are symbolic bytes.", COMMON_NOTE),
 }
 _pending = "check not built yet in this round (solver-based harness planned, DESIGN.md §4); not a statement that the technique cannot apply"
 NA = {("C%02d" % i): _pending for i in range(1, 21) if ("C%02d" % i) not in CLAIMED}
